@@ -534,3 +534,43 @@ UNITS = {
     "F1.pool": unit_F1("pool"), "F1.stream": unit_F1("stream"), "F1.models": unit_F1("models"),
     "F2": unit_F2, "F3": unit_F3, "F4": unit_F4, "R": unit_R,
 }
+
+
+# ------------------------------------------------------------------------------------------ F2 for models (C12 / C13)
+MODEL_METHODS = ("fit", "partial_fit", "_fit", "predict", "predict_proba", "predict_freq", "predict_target_distribution", "sample_y",
+                 "sample_proba", "score", "predict_annotator_perf")
+
+
+def unit_F2_models(tier):
+    """fit / predict of every classifier and regressor mutate no alias of a caller argument (X, y, sample_weight, ...)"""
+    A = analysis()
+    repo = A.repo
+    obs = []
+    for ci in sorted(repo.all_classes(), key=lambda c: (c.file, c.name)):
+        mro = repo.mro(ci.name)
+        if not ("SkactivemlClassifier" in mro or "SkactivemlRegressor" in mro):
+            continue
+        for owner, name, m in A.methods_of(ci.name):
+            if name not in MODEL_METHODS:
+                continue
+            fl = A.flow_of(ci.name, owner.name, name)
+            bad = []
+            for s in fl.mutations:
+                hit = {o for o in s.origins if o.startswith("param:") and o[6:] not in ("fit_kwargs", "predict_kwargs", "kwargs", "predict_proba_kwargs",
+                                                                                           "sample_kwargs", "check_X_dict", "check_y_dict", "random_state")}
+                if hit:
+                    bad.append(Site(s.kind, s.file, s.qual, s.line, s.text, hit))
+            obs.append(ob(f"F2m.{ci.name}.{name}", not bad, bad, f"{ci.name}.{name} mutates no object that may alias one of its array arguments"))
+    # utility functions reached with caller-owned arrays
+    for qual in ("compute_vote_vectors@skactiveml/utils/_aggregation.py", "majority_vote@skactiveml/utils/_aggregation.py",
+                 "ext_confusion_matrix@skactiveml/utils/_multi_annot.py"):
+        s = A.summaries.get(qual)
+        if s is not None:
+            bad = sorted(s.mutates - {"random_state"})
+            obs.append(ob(f"F2m.{qual.split('@')[0]}", not bad, [{"file": s.file, "line": 0, "qualname": s.qual, "kind": "mutates-parameter",
+                                                                "text": str(bad), "origins": bad}],
+                          f"{qual.split('@')[0]} mutates none of its array parameters (works on copies)"))
+    return result("frames.F2m", "classifier / regressor methods and aggregation utilities", obs)
+
+
+UNITS["F2m"] = unit_F2_models
